@@ -3,7 +3,7 @@ import gzip
 import json
 import os
 
-from core import nats, natlists, hx, exc_kind
+from core import nats, natlists, hx, exc_kind, safe_check
 import dbutil
 from props.c20 import build_index, wire_index, canon
 
@@ -183,7 +183,7 @@ def run(ctx):
 	rng = ctx.rng
 
 	def sub(case, tag):
-		lines, pf = check(ctx, case)
+		lines, pf = safe_check(check, ctx, case)
 		nt = case.pop('_nt', False)
 		ctx.submit(case, lines, nontrivial=nt, tags=[tag] + ([f'cont={case["cont"]}', f'ids={case["ids"]}', f'comp={case.get("compression")}', f'w={(case["k"]+3)//4}'] if case['kind'] == 'rt' else []), pyfails=pf)
 
